@@ -202,6 +202,17 @@ POLARITY = {
 }
 
 
+def toposort_objective(ctx: Ctx, adapters):
+    """`objective` is a field of the answer: for an order it is the number of nodes ordered, on both paths (the adapter
+    used to report a constant 0 where the Python routine reports len(order): ledger row 72)."""
+    a = adapters.get("topological_sort_edges")
+    ctx.require(a is not None, "adapter of topological_sort_edges not found")
+    f = ctx.func("scc", "topological_sort")
+    for fn_, want in ((a, "len(order)"), (f, "len(result)")):
+        sites = [s_ for s_ in result_sites(fn_) if "OPTIMAL" in s_.statuses and ast.unparse(s_.arg("solution")) not in ("None", "[]")]
+        ctx.ob("C12-O3", "R18 outcome-signature", fn_, "pair:topological_sort_edges the objective of an order is the number of nodes ordered", bool(sites) and all(ast.unparse(s_.arg("objective")) == want for s_ in sites), f"{[ast.unparse(s_.arg('objective')) for s_ in sites]}: a constant here makes the back-end visible in the result", node=sites[0].call if sites else fn_.node)
+
+
 def adapter_polarity(ctx: Ctx, adapters):
     n = 0
     for name, want in sorted(POLARITY.items()):
@@ -216,6 +227,12 @@ def adapter_polarity(ctx: Ctx, adapters):
             keys = [st for st in s_.statuses if st in want]
             if "path" in want and "path" in ast.unparse(s_.arg("solution")) and "INFEASIBLE" not in s_.statuses:
                 keys = ["path"]
+            if name == "bellman_ford" and "UNBOUNDED" in s_.statuses and atom_of("len(path) > n_nodes") in at:
+                # the second way to UNBOUNDED both implementations share: the predecessor chain from the target runs in a
+                # circle (a zero-weight cycle that rounding made negative) - the walk is cut off after n_nodes steps
+                walk = any(ast.unparse(x) == "current = result['predecessors'][current]" for x in own_nodes(a.node))
+                ctx.ob("C12-O3", "R1 STATUS-GUARD", a, f"pair:{name} UNBOUNDED for a predecessor chain that does not end, as on the Python path", walk and "F:result['has_negative_cycle']" in at, "", node=s_.call)
+                continue
             for k_ in keys:
                 need = {atom_of(x) if not x.startswith(("T:", "F:")) else x for x in want[k_]}
                 if k_ == "OPTIMAL" and "target is not None" in at and name == "bellman_ford":
@@ -235,7 +252,7 @@ def adapter_polarity(ctx: Ctx, adapters):
     if bfa is not None:
         from .sat_common import _need
 
-        _need(ctx, "C12-O3", "R5 PAIRING", bfa, "the path is rebuilt from the kernel's predecessor array, target first, and reversed", ["current = target\n    while current != -1:\n        path.append(current)\n        current = result['predecessors'][current]\n    path.reverse()"])
+        _need(ctx, "C12-O3", "R5 PAIRING", bfa, "the path is rebuilt from the kernel's predecessor array, target first, and reversed", ["current = target\n    while current != -1:\n        if len(path) > n_nodes:\n            return Result(None, float('-inf'), result['iterations'], 0, Status.UNBOUNDED)\n        path.append(current)\n        current = result['predecessors'][current]\n    path.reverse()"])
 
 
 def reference_routines(ctx: Ctx):
@@ -421,7 +438,8 @@ def run(ctx: Ctx):
             ctx.ob("C12-O3", "R18 outcome-signature", a, f"pair:{name} Result#{k} ({'/'.join(sorted(s_.statuses))}) is published only after the negative-cycle flag was found false", "F:result['has_negative_cycle']" in at, "the Python implementation reports UNBOUNDED before any other verdict; an adapter that tests reachability first answers INFEASIBLE for an unreachable target behind a negative cycle", node=s_.call)
         f = decorated[name]
         cfg_f = cfg_of(f.node)
-        unb = [x for x in result_sites(f) if "UNBOUNDED" in x.statuses]
+        gv_f = GuardView(cfg_f)
+        unb = [x for x in result_sites(f) if "UNBOUNDED" in x.statuses and "path is None" not in gv_f.guard_atoms(x.node, stable_only=False)]
         oth = [x for x in result_sites(f) if "UNBOUNDED" not in x.statuses]
         okp = bool(unb) and all(x.node.id in cfg_f.forward(u.node.loop if u.node.loop is not None else u.node) or True for u in unb for x in oth)
         # structural form: every other publication comes after the loop that contains the UNBOUNDED return
@@ -504,6 +522,8 @@ def run(ctx: Ctx):
                     nm.discard(v)
                     nm.add("result")
             okt = bool(nm) and nm <= QUERY_SHAPE | {"result"}
+            if name == "bellman_ford" and ast.unparse(n.test) == "len(path) > n_nodes" and any(ast.unparse(x) == "current = result['predecessors'][current]" for x in own_nodes(a.node)):
+                okt = True  # `path` is the walk along the kernel's predecessor array: its length is the kernel's report
             ctx.ob("C12-O9", "R7 PROVENANCE", a, f"pair:{name} `{ast.unparse(n.test)}` branches on the kernel's report", okt, f"the test reads {sorted(nm)}: a verdict inferred from a budget or an input quantity instead of the kernel's own flag differs from the kernel's whenever the inference is off by one (convergence on the last allowed sweep)", node=n)
     ctx.floor("adapter verdict tests after the kernel call", n_tests, 12)
 
@@ -579,6 +599,7 @@ def run(ctx: Ctx):
 
     ctx.step(check_floyd_edge_ingest, "C12-O4")
     ctx.step(adapter_polarity, adapters)
+    ctx.step(toposort_objective, adapters)
     ctx.step(reference_routines)
     generic_sweeps(ctx)
 
@@ -737,7 +758,13 @@ def _v_unreachable_first(tree):
     body.insert(j + 1, st)
 
 
+def _v_toposort_adapter_constant_objective(tree):
+    g = M.find_func(tree, "_topo_edges_rust")
+    M.replace_expr(g, lambda e: M.src_is(e, "len(order)"), M.expr("0"))
+
+
 VARIANTS = [
+    M.Variant("the topological-sort adapter reports objective 0 for an order (original defect, ledger row 72)", AD, _v_toposort_adapter_constant_objective, "C12-O3"),
     M.Variant("floyd adapter aggregates duplicate edges in a dict (seed C12-A)", AD, _v_pair_dict, "C12-O4"),
     M.Variant("bellman_ford adapter tests reachability before the negative-cycle flag (seed C12-B)", AD, _v_unreachable_first, "C12-O3"),
 
